@@ -30,7 +30,9 @@ RULE = (
 ASSUMPTIONS = ["str.isalnum() is 'alphanumeric'", "the empty-string delimiter is outside the domain (DESIGN 7.3)"]
 
 HOSTS = ["https://x/", "https://x/a_", "http://x/", "http://x/a_", "http://x/a/", "http://y#", "http://x/b#", "z", "http://x/a_b/", "urn:x:", "http://x/a_b_", "", " http://x/", "\thttp://x/b#", " http://x/a_", "http://x/ ", "http://x/cafe\u0301/", "http://x/caf\u00e9/", "http://\u212b/"]
-TAILS = ["1", "2", "3", "a1", "é", "a_1", "a-1", "", "x/1", "1#2", "٣", "b", "A", "1_2", "²", "e\u0301", "\u212b", "\u2126x"]
+TAILS = ["1", "2", "3", "a1", "é", "a_1", "a-1", "", "x/1", "1#2", "٣", "b", "A", "1_2", "²", "e\u0301", "\u212b", "\u2126x",
+         # (lines read from a file keep their newline: "item1\n" is not alphanumeric - seed C19-Q, '$' in a pattern)
+         "1\n", "a1\n", "\n", "1\r\n", "1 ", "1\t"]
 DELIMS = [None, None, ["/"], ["#", "/", "_"], ["_", "/"], ["a_", "/"], ["/", "#"], [":", "/"], ["_"], ["b#", "#", "_"], ["/ ", "/"], [" ", "#"]]
 
 
